@@ -32,9 +32,9 @@ REWRITES = [
     Rewrite('R37-find', r'self\s*\.open_elems\s*\.borrow\(\)\s*\.iter\(\)\s*\.find\(', 'vec_find_cloned(&self.open_elems.borrow(), ', only=BODY, min_count=1),
     Rewrite('R37-find', r'\)\s*\.cloned\(\);(\s*)self\.process_end_tag_in_body\(tag\);', r');\1self.process_end_tag_in_body(tag);', only=BODY, min_count=1),
     # R39: local tag sets of the <li>/<dd>/<dt> rule
-    Rewrite('R39-localset', r'declare_tag_set!\(close_list = "li"\);', '', min_count=1),
-    Rewrite('R39-localset', r'declare_tag_set!\(close_defn = "dd" "dt"\);', '', min_count=1),
-    Rewrite('R39-localset', r'declare_tag_set!\(extra_special = \[special_tag\] - "address" "div" "p"\);', '', min_count=1),
+    Rewrite('R39-localset', r'declare_tag_set!\(close_list = [^;]*\);', '', min_count=1),
+    Rewrite('R39-localset', r'declare_tag_set!\(close_defn = [^;]*\);', '', min_count=1),
+    Rewrite('R39-localset', r'declare_tag_set!\(extra_special = [^;]*\);', '', min_count=1),
     Rewrite('R11-byvalue', r'name\.local\.clone\(\)', 'name.local', only=BODY),
     # R34: the guard of `Some(ref node) if G => { BODY }, _ => {},` is moved into the arm (`Some(ref node) => { if G { BODY } }`): Verus loses
     #      track of `&mut self` inside a guarded arm; same meaning because the only arm that follows does nothing
@@ -62,4 +62,14 @@ PARTS = BASE + [
 ] + [
     Raw('} // verus!\nfn main() {}'),
 ]
+LI_ARM = r'tag!\(<li> \| <dd> \| <dt>\)\) => \{'
+LOCAL_SETS = [
+    u_stack.local_set_check(R, LI_ARM, 'close_list', 'tsl_close_list', 'p == html_name(local_name!("li"))'),
+    u_stack.local_set_check(R, LI_ARM, 'close_defn', 'tsl_close_defn', 'p == html_name(local_name!("dd")) || p == html_name(local_name!("dt"))'),
+    u_stack.local_set_check(R, LI_ARM, 'extra_special', 'tsl_extra_special',
+                            'ts_special_tag(p) && p != html_name(local_name!("address")) && p != html_name(local_name!("div")) && p != html_name(local_name!("p"))',
+                            reveals=('ts_special_tag',)),
+]
+PARTS = u_stack.with_local_sets(PARTS, LOCAL_SETS)
+
 DROPS = u_table.DROPS
